@@ -24,6 +24,10 @@ type Step struct {
 	Tpl   bool `json:"tpl"`
 	Which int  `json:"which"` // template index
 	NRecs int  `json:"nrecs,omitempty"`
+	// Refused: while the data set is built, one more record whose value cannot be encoded is offered
+	// (after RefusedAt good records); the add is refused and the application goes on with the set
+	Refused   bool `json:"refused,omitempty"`
+	RefusedAt int  `json:"refused_at,omitempty"`
 }
 
 // Case is one session; Start is the initial value of the sequence counter.
@@ -116,7 +120,34 @@ func runCase(c Case) *ev.Failure {
 					recs[k] = append(recs[k], v)
 				}
 			}
-			set, err := exph.DataSetInto(newSet(), id, fields, recs, i%3)
+			var set entities.Set
+			var err error
+			if s.Refused {
+				at := s.RefusedAt % (len(recs) + 1)
+				set, err = exph.DataSetInto(newSet(), id, fields, recs[:at], i%3)
+				if err == nil {
+					// an IPv4 element holding an IPv6 address, appended to a copy of the template's elements
+					bad := append(exph.Elements(fields, recs[0]), glue.Element(glue.IE(glue.UserField(ref.TIPv4)), ref.TIPv4, ref.Value{B: []byte{0x20, 1, 0xd, 0xb8, 0, 0, 0, 0, 0, 0, 0, 0, 0, 0, 0, 9}}))
+					if i%3 == 2 {
+						_ = set.AddRecordV2(bad, id)
+					} else {
+						_ = set.AddRecord(bad, id)
+					}
+					for _, r := range recs[at:] {
+						els := exph.Elements(fields, r)
+						if i%3 == 2 {
+							err = set.AddRecordV2(els, id)
+						} else {
+							err = set.AddRecord(els, id)
+						}
+						if err != nil {
+							break
+						}
+					}
+				}
+			} else {
+				set, err = exph.DataSetInto(newSet(), id, fields, recs, i%3)
+			}
 			if err != nil {
 				return ev.Failf("step %d: %v", i, err)
 			}
@@ -187,6 +218,9 @@ func genCase(t *rapid.T) Case {
 			s.NRecs = rapid.IntRange(1, 12).Draw(t, "nrecs")
 			if rapid.IntRange(0, 5).Draw(t, "big") == 0 {
 				s.NRecs = rapid.IntRange(13, 200).Draw(t, "nrecsbig")
+			}
+			if rapid.IntRange(0, 5).Draw(t, "refused") == 0 {
+				s.Refused, s.RefusedAt = true, rapid.IntRange(0, 12).Draw(t, "refusedat")
 			}
 		}
 		c.Steps = append(c.Steps, s)
